@@ -363,6 +363,9 @@ class NodeExpandedDiGraph(nx.DiGraph):
         for constraint in subpath_constraints:
             expanded_constraint = []
             for i, edge in enumerate(constraint):
+                if not (isinstance(edge, tuple) and len(edge) == 2):
+                    utils.logger.error(f"{__name__}: each subpath constraint must be a list of edges, where each edge is a tuple of two nodes; got {edge}.")
+                    raise ValueError(f"Each subpath constraint must be a list of edges, where each edge is a tuple of two nodes; got {edge}.")
                 if edge not in self.original_G.edges:
                     utils.logger.error(f"{__name__}: Edge {edge} not in the original graph.")
                     raise ValueError(f"Edge {edge} not in the original graph.")
